@@ -50,6 +50,9 @@ CLAIMS = {
  "C11": ("exploration", "chunk-log oracle: the backend's per-chunk (length, offset) log and the client's (n, err, bytes) replayed against a byte-slice model under scripted short counts and errors",
          "Real client and server over a backend file whose content is a function of the offset; grid of 10 msize values (from the smallest accepted) x buffer lengths around multiples of the observed chunk size x offsets (0, EOF+-1, 2^32+-1, 2^40) x file sizes on both sides of off+len x a fault (error, 0, 1 or L-1 bytes) on each of the first chunks. Chunks must be in order, contiguous, within msize-11 / msize-23, none after the first short or failed chunk, none missing; returned count = sum of chunk counts; the failed chunk's errno is what the caller sees; io.EOF only if n < len(p) and always if n == 0 < len(p); bytes equal the file; stored bytes equal p[:n].",
          "memfs call log is what the server forwarded; writes are content-checked below 1 MiB offsets, by chunk arguments above.", "DESIGN.md section 3 C11"),
+ "C10": ("exploration", "request-stream monitor on a scripted fake server (tags, fids) + own-reply oracle under every reply permutation + porcupine linearizability of allocator histories + fault injection at every reply point with quiescence/livelock-decided hangs",
+         "Reply contents are a function of the request, so every caller can tell its own reply: k<=5 concurrent calls answered in every order, PRNG orders up to k=128 incl. replies released before other callers sent; the allocator is enumerated through a verif hook (all Get/Put sequences to length 8-10 over five ranges) and its concurrent histories (8 goroutines) are checked with porcupine against a free-set model; at each of the 6 reply points of a concurrent session the server closes / sends half a frame / breaks only the client's write side / sends size<7, size>msize, an unknown tag, a wrong R-type, an undecodable body or garbage: pending (and after a break later) calls must fail, never hang (quiescence or CPU-burning livelock), never return success or foreign data, and a second healthy client in the same process must stay undisturbed; walk/clunk/xattr churn with refused binds and failed clunks for fid re-use accounting.",
+         "Fake server replies are deterministic functions of request bodies; a bad size field is treated as 'frame the client cannot accept' (pending calls fail), not as a break.", "DESIGN.md section 3 C10"),
 }
 
 PENDING = "check under construction in this round (DESIGN.md section 3); will be claimed once its monitor is committed and silent on the repaired tree"
